@@ -181,24 +181,37 @@ def _same_den(a, b):
 
 
 # ---- conversion ---------------------------------------------------------------------------------------
-def u_in_units(I):
-    ctx = I.ctx
-    a, v1, e1 = mk_qty(I, 'a')
-    b, v2, e2 = mk_qty(I, 'b')
-    ctx.assume(v2 != 0)
-    out = run_target(I, QTY, 'GenericQuantity.in_units', [b], self_obj=a)
-    check_outcome(I, out, raises={'UnitsError': z3.Not(same(e1, e2))},
-                  returns=lambda r: [('in_units returns the ratio of the SI magnitudes as a plain number',
-                                      z3.And(z3.BoolVal(not is_qty(r)), z3_of(r) * v2 == v1) if not is_qty(r) else z3.BoolVal(False))])
-    return {'inputs': {}}
+from .C11conv import u_in_units, u_in_units_text, replay_in_units_text      # noqa: E402  (conversions: shared with C11)
 
 
 def u_helpers(I):
     ctx = I.ctx
-    which = ctx.choose([True] * 3, 'helper')
+    which = ctx.choose([True] * 4, 'helper')
     u, vu, eu = mk_qty(I, 'u')
     ctx.assume(vu != 0)
     x = I.fresh('x', 'real')
+    # the unit expression may be DIMENSIONLESS ('cm/m', 'mol/mol', '1'): its value is then a plain number, not a Quantity object (this is what
+    # evaluation returns when all exponents cancel); it is given as text and eval_expr is stubbed by its contract
+    dimless = ctx.choose([True, True], 'the unit expression: dimensional / dimensionless') == 1
+    if dimless:
+        I.world.contracts[(QTY, 'eval_expr')] = lambda I_, a_, k_: vu
+        I.world.contracts[('pgradd/Units/parser.py', 'eval_expr')] = I.world.contracts[(QTY, 'eval_expr')]
+        u = 'cm/m'
+    if which == 3:
+        # helpers.in_units(q, u): q a quantity or (dimensionless) a plain number
+        plain = ctx.choose([True, True], 'the quantity: a Quantity / a plain number') == 1
+        q, vq, eq_ = mk_qty(I, 'q')
+        arg = x if plain else q
+        out = run_target(I, HELP, 'in_units', [arg, u])
+        compatible = z3.BoolVal(plain == dimless) if (plain or dimless) else same(eq_, eu)
+        val = x if plain else vq
+        check_outcome(I, out, raises={'UnitsError': z3.Not(compatible)},
+                      returns=lambda r: [('in_units(q, u) is the ratio of the SI magnitudes as a plain number -- also when q and u are dimensionless', z3.And(z3.BoolVal(not is_qty(r)), z3_of(r) * vu == val))])
+        return {'inputs': {}}
+    if dimless and which == 2:
+        out = run_target(I, HELP, 'with_units', [x, u])
+        check_outcome(I, out, returns=lambda r: [('with a dimensionless unit expression the result is the plain number x*SI(u)', z3.And(z3.BoolVal(not is_qty(r)), z3_of(r) == x * vu))])
+        return {'inputs': {}}
     if which == 0:
         out = run_target(I, HELP, 'to_SI_from', [x, u])
         check_outcome(I, out, returns=lambda r: [('to_SI_from(x,u) == x*SI(u)', z3_of(r) == x * vu)])
@@ -225,11 +238,25 @@ def u_helpers(I):
 def replay_with_units(model, state, ob):
     from pgradd.Units import with_units
     from pgradd.Units.qty import Quantity
+    if 'AttributeError' in str(ob.get('name', '')) or 'dimensionless' in str(ob.get('name', '')):
+        from pgradd.Units import eval_qty, in_units, to_SI_from, from_SI_to
+        from . import real
+        res = {}
+        for nm_, f_, want_ in (("in_units(eval_qty('cm/m'), 'mm/m')", lambda: in_units(eval_qty('cm/m'), 'mm/m'), 10.0), ("to_SI_from(5, 'cm/m')", lambda: to_SI_from(5, 'cm/m'), 0.05),
+                               ("from_SI_to(5, 'mol/mol')", lambda: from_SI_to(5, 'mol/mol'), 5.0)):
+            with real.quiet():
+                res[nm_] = (real.outcome(f_), want_)
+        bad = {k_: str(v_[0]) for k_, v_ in res.items() if v_[0][0] != 'ok' or abs(v_[0][1] - v_[1]) > 1e-12}
+        return {'failed': bool(bad), 'input': 'conversions with a dimensionless unit expression', 'observed': bad or 'all converted', 'expected': {k_: v_[1] for k_, v_ in res.items()},
+                'script': "from pgradd.Units import eval_qty, in_units, to_SI_from\nprint(in_units(eval_qty('cm/m'), 'mm/m'), to_SI_from(5, 'cm/m'))   # expected 10.0 0.05\n"}
     r = with_units(0, 'kcal/mol')
     r2 = with_units(0.0, 'K')
     ok = isinstance(r, Quantity) and isinstance(r2, Quantity)
     return {'failed': not ok, 'input': "with_units(0, 'kcal/mol')", 'observed': repr(type(r).__name__), 'expected': 'Quantity',
             'script': "from pgradd.Units import with_units\nprint(type(with_units(0, 'kcal/mol')))  # expected Quantity\n"}
+
+
+replay_with_units.model_free = True
 
 
 # ---- data obligation: the unit table against SI definitions written independently ----------------------
@@ -345,6 +372,30 @@ def data_unit_table(tier, seed):
             if isinstance(got, str) or abs(got / want - 1) > 1e-9:
                 viol.append({'id': 'fractional-%s' % a_.replace(' ', '_').replace('/', '_'), 'input': "eval_qty(%r).in_units(%r)" % (a_, b_), 'observed': got, 'expected': want,
                              'script': "from pgradd.Units import eval_qty\nprint(eval_qty(%r).in_units(%r))   # expected %r\n" % (a_, b_, want)})
+    # what a caller DOES with an evaluated quantity (arithmetic, in-place operators) must not reach the unit table: the same names evaluate to the same
+    # values afterwards
+    with contextlib.redirect_stdout(io.StringIO()):
+        for nm_ in ('K', 'm', 'kJ', 'mol', 's'):
+            for form in (nm_, '(%s)' % nm_, '1 %s' % nm_):
+                n += 1
+                try:
+                    before = eval_qty('1 ' + nm_)
+                    before = (before.value, list(before.units.exps))
+                    q = eval_qty(form)
+                    q *= 298.15
+                    q /= eval_qty('s')
+                    q **= 2
+                    q2 = eval_qty(form)
+                    q2 += eval_qty(form)
+                    after = eval_qty('1 ' + nm_)
+                    after = (after.value, list(after.units.exps))
+                    got = None if after == before else {'before': before, 'after': after}
+                except Exception as ex:    # noqa
+                    got = 'raised %s: %s' % (type(ex).__name__, str(ex)[:60])
+                if got:
+                    viol.append({'id': 'table-after-inplace-%s' % form.replace(' ', '_'), 'input': "q = eval_qty(%r); q *= 298.15; q /= eval_qty('s'); q **= 2; then eval_qty('1 %s')" % (form, nm_),
+                                 'observed': got, 'expected': 'the value and dimension of the table',
+                                 'script': "from pgradd.Units import eval_qty\nq = eval_qty(%r)\nq *= 298.15\nprint(eval_qty('1 %s'))\n" % (form, nm_)})
     return {'name': 'unit-table-vs-SI', 'obligations': n, 'violations': viol, 'samples': samples, 'exhaustive': True,
             'bound': 'all %d unit names x (no prefix + %d prefixes), three passes in different orders in one process + stacked prefixes' % (len(names), len(prefixes))}
 
@@ -355,6 +406,7 @@ UNITS = [
     Unit('UnitsDB.lookup', (DB, 'UnitsDB.lookup'), u_lookup, replay_lookup),
     Unit('eval_subtree', (PARSER, 'eval_subtree'), u_eval_subtree),
     Unit('GenericQuantity.in_units', (QTY, 'GenericQuantity.in_units'), u_in_units),
+    Unit('GenericQuantity.in_units[text target, two calls]', (QTY, 'GenericQuantity.in_units'), u_in_units_text, replay_in_units_text),
     Unit('helpers.with_units/to_SI_from/from_SI_to', (HELP, 'with_units'), u_helpers, replay_with_units),
 ]
 for u in C11.UNITS:
